@@ -137,6 +137,8 @@ func setupProfile(e *Env, o core.RunOpts) error {
 		return setupTransition(e, o)
 	case "C06", "C07", "C15", "C16":
 		return setupFeeds(e, o)
+	case "C14":
+		return setupEconomy(e, o)
 	case "C08", "C17":
 		return setupTunnel(e, o)
 	case "C11":
@@ -483,5 +485,67 @@ func setupTunnel(e *Env, o core.RunOpts) error {
 		e.MaxSteps = e.Ch.Range("cfg.steps", 70, 240)
 	}
 	e.DrainMax = 0
+	return nil
+}
+
+// setupEconomy: block rewards switched on (inflation, fees in several denoms), signing group with varying eligibility,
+// validators with varying oracle activity, absent voters.
+func setupEconomy(e *Env, o core.RunOpts) error {
+	tokens := drawValTokens(e, 1, 7)
+	op := drawOracleParams(e)
+	op.OracleRewardPercentage = []uint64{70, 0, 100, 1, 33, 50}[e.Ch.Intn("cfg.eco.opct", 6)]
+	tp := drawTSSParams(e)
+	bp := drawBandtssParams(e)
+	bp.RewardPercentage = []uint64{10, 0, 100, 1, 50}[e.Ch.Intn("cfg.eco.tpct", 5)]
+	tax := []string{"0.02", "0", "1", "0.5", "0.000000000000000001"}[e.Ch.Intn("cfg.eco.tax", 5)]
+	e.Shared["oracle.genesis.params"] = op
+	e.Shared["tss.genesis.params"] = tp
+	e.Shared["bandtss.genesis.params"] = bp
+	e.Shared["bandtss.genesis.current"] = uint64(1)
+	cfg := world.Config{Seed: o.Seed, ChainID: "simband", ValTokens: tokens, NumUsers: 10, Replicas: 1, GenesisTime: baseTime}
+	faults := drawFaults(e, false)
+	faults.AbsentVote, faults.NilVote = 250, 100
+	var accs []*world.Account
+	for i := 0; i < cfg.NumUsers; i++ {
+		accs = append(accs, world.NewAccount(o.Seed, fmt.Sprintf("user%d", i)))
+	}
+	size := 1 + e.Ch.Intn("cfg.tss.groupsize", 5)
+	thr := uint64(1 + e.Ch.Intn("cfg.tss.threshold", size))
+	pool := NewTSSPool(e, accs[:size])
+	drawMemberBehaviour(e, pool, int(tp.MaxDESize), true)
+	e.Shared["tss.shadow"] = NewTSSShadow(pool)
+	e.Shared["tss.pool"] = pool
+	var dss []dsSpec
+	treas := world.NewAccount(o.Seed, "treasury")
+	dss = append(dss, dsSpec{Fee: sdk.NewCoins(), Treasury: treas, Exec: []byte("x")})
+	e.Desc("economy: oracle reward %d%% tss reward %d%% community tax %s; group %d/%d", op.OracleRewardPercentage, bp.RewardPercentage, tax, thr, size)
+	taxMod := func(w *world.World, gs band.GenesisState) {
+		cdc := w.Replicas[0].App.AppCodec()
+		var dg distrtypes.GenesisState
+		cdc.MustUnmarshalJSON(gs[distrtypes.ModuleName], &dg)
+		dg.Params.CommunityTax = math.LegacyMustNewDecFromStr(tax)
+		gs[distrtypes.ModuleName] = cdc.MustMarshalJSON(&dg)
+	}
+	cfg.GenesisMods = append(cfg.GenesisMods, govGenesis(4*time.Second), taxMod, oracleGenesis(e, op, dss),
+		tssGenesis(e, tssGenesisCfg{TSSParams: tp, BandtssParams: bp, GroupMembers: pool.Members, Threshold: thr, InitialDEs: e.Ch.Intn("cfg.tss.initde", int(tp.MaxDESize)+1)}))
+	w, err := world.New(e.Ch, e.Log, e.St, cfg, o.Scratch)
+	if err != nil {
+		return err
+	}
+	e.W = w
+	w.F = faults
+	for i, m := range pool.Members {
+		m.Acc = w.Users[i]
+	}
+	e.Actors = append(e.Actors,
+		&OracleActor{MaxOpen: 2, ReqRate: e.Ch.Intn("cfg.eco.reqrate", 200), Scripts: []int{scriptEcho}, NumDS: 1, ActivateP: 600 + e.Ch.Intn("cfg.eco.activate", 400), ReactivateP: 150},
+		&TSSActor{Pool: pool, ByzP: 0, ReactP: 200, OverDEP: 0},
+		&SigRequester{Rate: e.Ch.Intn("cfg.sigreq.rate", 400), MaxOpen: 3, Senders: w.Users[size:], LimitW: []int{100, 0, 0, 0}},
+		&FeeActor{Users: w.Users[size:], Rate: 300 + e.Ch.Intn("cfg.eco.feerate", 400)})
+	e.Monitors = append(e.Monitors, &C14{}, &C05{}, &C10{}, NewC01(), &C09{WithTSS: true})
+	e.MaxSteps = e.Ch.Range("cfg.steps", 40, 110)
+	if o.Thorough {
+		e.MaxSteps = e.Ch.Range("cfg.steps", 60, 220)
+	}
 	return nil
 }
